@@ -15,6 +15,7 @@ import sys
 import tempfile
 
 VERIF = os.path.dirname(os.path.dirname(os.path.abspath(__file__)))
+RECORD = False
 
 
 def run_seed(sid):
@@ -41,6 +42,12 @@ def run_seed(sid):
                                stderr=subprocess.STDOUT, text=True)
             fails = [l.strip()[:150] for l in q.stdout.splitlines() if l.strip().startswith('FAILED')]
             res[prop] = (q.returncode, fails[:1])
+            if RECORD:
+                full = [l.strip()[:260] for l in q.stdout.splitlines() if l.strip().startswith('FAILED')]
+                meta.setdefault('checks_after_strengthening', {})[prop] = {'exit': q.returncode, 'failed': full[:6]}
+        if RECORD:
+            with open(os.path.join(d, 'meta.json'), 'w') as fh:
+                json.dump(meta, fh, indent=1)
         caught = [p_ for p_, (rc, _) in res.items() if rc == 1]
         broken = [p_ for p_, (rc, _) in res.items() if rc == 2]
         if caught:
@@ -56,7 +63,10 @@ def main():
     ap = argparse.ArgumentParser()
     ap.add_argument('-k', default='')
     ap.add_argument('-j', type=int, default=6)
+    ap.add_argument('--record', action='store_true', help='store the result in meta.json (checks_after_strengthening)')
     a = ap.parse_args()
+    global RECORD
+    RECORD = a.record
     sids = sorted(os.path.basename(os.path.dirname(p)) for p in glob.glob(os.path.join(VERIF, 'seeded', '*', 'meta.json')))
     sids = [s for s in sids if a.k in s]
     from concurrent.futures import ThreadPoolExecutor
